@@ -65,12 +65,12 @@ def call_shapes(sig, max_pos=4):
                 yield args, [[k, 40 + i] for i, k in enumerate(ks)]
 
 
-def make_case(sig, args, kwargs, rng, kind="function"):
+def make_case(sig, args, kwargs, rng, kind="function", async_=False):
     nonvar = [p["name"] for p in sig if p["kind"] not in ("varPos", "varKw")]
     lv = {"pre": [], "snaps": [], "posts": []}
-    case = genck.base_case("function", False, [lv])
+    case = genck.base_case("function", async_, [lv])
     if kind == "method":
-        case = genck.base_case("method", False, [lv])
+        case = genck.base_case("method", async_, [lv])
         sk = "posOnly" if any(p["kind"] == "posOnly" for p in sig) else "posOrKw"
         sig = [{"name": "self", "kind": sk, "default": None}] + sig
         args = [50] + args
@@ -101,7 +101,8 @@ def cases(tier, rng):
     for n in range(0, (4 if thorough else 3) + 1):
         for sig in signatures(n):
             for args, kwargs in call_shapes(sig):
-                c = make_case(sig, args, kwargs, rng, kind="method" if rng.random() < 0.15 else "function")
+                c = make_case(sig, args, kwargs, rng, kind="method" if rng.random() < 0.15 else "function",
+                              async_=rng.random() < 0.35)
                 ok = implck.py_bind(c) is not None
                 if ok or rng.random() < 0.1:
                     yield ("exh" if ok else "rejected"), c
@@ -127,7 +128,7 @@ def cases(tier, rng):
         shapes = list(call_shapes(sig, max_pos=6))
         rng.shuffle(shapes)
         for args, kwargs in shapes[:40]:
-            c = make_case(sig, args, kwargs, rng)
+            c = make_case(sig, args, kwargs, rng, async_=rng.random() < 0.35)
             ok = implck.py_bind(c) is not None
             if ok or rng.random() < 0.05:
                 yield ("rnd" if ok else "rejected"), c
@@ -220,12 +221,13 @@ def classify(case, mo, io, fails):
 
 
 def nontrivial_key(case, mo):
-    return (tuple((p["name"], p["kind"], p["default"] is not None) for p in case["sig"]), len(case["args"]),
+    return (case["async"], tuple((p["name"], p["kind"], p["default"] is not None) for p in case["sig"]), len(case["args"]),
             tuple(sorted(k for k, _v in case["kwargs"])))
 
 
 def stats(case, mo, io, dist):
     dist["params:%d" % len(case["sig"])] += 1
+    dist["async" if case["async"] else "sync"] += 1
     for p in case["sig"]:
         dist["kind:" + p["kind"]] += 1
     dist["accepted:%s" % (implck.py_bind(case) is not None)] += 1
